@@ -1,4 +1,5 @@
 """C05 — content hash, reference hash and event IDs are the spec's functions of the event."""
+import base64
 import copy
 import json
 
@@ -14,6 +15,7 @@ RULE = ("events from the PDU generator (all special event types, extra keys, uns
         "hashes present or not) x room versions 1-11; for each: content hash and the reference "
         "hash under every version compared with hashlib.sha256 over the reference canonical JSON "
         "of the reference-stripped / reference-redacted event in the version's base64 alphabet; "
+        "hashes.sha256 written by hash_and_sign_event (also over a stale hashes object) compared with the same value; "
         "metamorphic family per event: edits confined to unsigned / signatures / hashes, a "
         "single-field edit of every covered top-level and content field, ruma-redacted copy; "
         "size ladder: canonical size of the hashed portion from 65,530 to 65,540 bytes (ASCII and "
@@ -32,7 +34,7 @@ def layers(tier):
 
 
 def floors(tier):
-    return {"events": 1500, "size_ladder": 200, "mutations_covered": 3000,
+    return {"events": 1500, "stored_hashes_checked": 300, "size_ladder": 200, "mutations_covered": 3000,
             "mutations_uncovered": 1500, "size_errors_expected": 50, "_distinct_nontrivial": 1000}
 
 
@@ -228,6 +230,27 @@ def shard(ctx):
                                   {"base": fmt(work[base][0])[:1500], "mutant": fmt(ev)[:1500]}, replay)
         if layer != "rel":
             continue
+        # hashes.sha256 as written by hash_and_sign_event (40% of the events already carry a stale
+        # hashes object, as when an event is signed again after an edit)
+        from ..ref import ed25519
+        der = base64.b64encode(ed25519.pkcs8_v1(bytes(range(32)))).decode()
+        ids = [i for i, x in enumerate(work) if x[1] == "event" and "type" in x[0] and results[i] is not None][::2]
+        cmds = [{"op": "hash_and_sign_event", "text": fmt(work[k][0]), "entity": "a.example", "der_b64": der,
+                 "key_version": "1", "version": str(VERSIONS[k % 11]), "tolerant": True} for k in ids]
+        for k, cmd, r in zip(ids, cmds, wk.call_many(cmds)):
+            if handle_crash(rep, r, cmd):
+                continue
+            ch = results[k][0]
+            if "ok" not in r or "ok" not in r["ok"].get("result", {}):
+                rep.count("hash_and_sign_refused")
+                continue
+            rep.judged()
+            rep.count("stored_hashes_checked")
+            got = json.loads(r["ok"]["object"]).get("hashes")
+            want_other = {a: b for a, b in work[k][0].get("hashes", {}).items() if a != "sha256"} if isinstance(work[k][0].get("hashes"), dict) else {}
+            if not isinstance(got, dict) or got.get("sha256") != ch or {a: b for a, b in got.items() if a != "sha256"} != want_other:
+                rep.violation("stored_content_hash_differs", "v%d" % VERSIONS[k % 11],
+                              {"event": fmt(work[k][0])[:2000], "stored": got, "content_hash": ch}, cmd)
         # reference hash unchanged by ruma's own redaction
         base_idx = [i for i, x in enumerate(work) if x[1] == "event" and "type" in x[0]]
         for i in range(0, len(base_idx), B):
